@@ -148,7 +148,7 @@ fn gen_case(ch: &mut Ch, degenerate: bool) -> PlanCase {
         };
         c.radius = c.radius.max(c.step);
     }
-    if !degenerate && c.planner != PlannerTag::PRM && ch.prob(0.06) {
+    if !degenerate && ch.prob(0.06) {
         // one coordinate of an R^n component unbounded: uniform sampling reports an error (the
         // iteration is skipped), goal samples still drive the tree; extent and resolution come
         // from the documented fallback for unbounded spaces
@@ -342,7 +342,7 @@ impl Prop for C06 {
     type Case = PlanCase;
     const ID: &'static str = "C06";
     const PART: &'static str = "timed-runs";
-    const RULE: &'static str = "proptest-generated planner cases run under real wall-clock limits T in {0, 1, 5, 20, 50} ms (PRM build time in {0, 1, 5, 20} ms), no iteration budget: feasible worlds and four infeasible families (goal sealed by a closed shell of thickness >= 1.1 L, goal region entirely invalid, start sealed in, and a feasible query followed by setup() with a checker whose world seals the goal) x 4 planners x 6 kinds x parameters x seeds; 10% degenerate resolutions (longest-valid-segment fraction 0 / negative / -0.0, then solve(100 ms)); 12% minute steps (1e-7..1e-4 of the start-goal distance, or 0); 6% of the tree-planner cases with one R^n coordinate unbounded on one or both sides (uniform sampling fails, goal samples drive the tree). Oracle: elapsed <= T + 1 s for solve and construct_roadmap (an overshoot must repeat in 3 more runs of the same case to count); at most one iteration may draw its sample later than T after the first iteration's sample (iterations started after the deadline, from the instants of the sampler calls - independent of how long an iteration takes); Ok(path) on an infeasible world is a violation, and a call that does not return within the 20 s watchdog is a violation ('blocks indefinitely'). Non-trivial = infeasible world, a deadline that actually fired (Err(Timeout)), or a degenerate resolution.";
+    const RULE: &'static str = "proptest-generated planner cases run under real wall-clock limits T in {0, 1, 5, 20, 50} ms (PRM build time in {0, 1, 5, 20} ms), no iteration budget: feasible worlds and four infeasible families (goal sealed by a closed shell of thickness >= 1.1 L, goal region entirely invalid, start sealed in, and a feasible query followed by setup() with a checker whose world seals the goal) x 4 planners x 6 kinds x parameters x seeds; 10% degenerate resolutions (longest-valid-segment fraction 0 / negative / -0.0, then solve(100 ms)); 12% minute steps (1e-7..1e-4 of the start-goal distance, or 0); 6% of the cases with one R^n coordinate unbounded on one or both sides (uniform sampling fails, goal samples drive the tree). Oracle: elapsed <= T + 1 s for solve and construct_roadmap (an overshoot must repeat in 3 more runs of the same case to count); at most one iteration may draw its sample later than T after the first iteration's sample (iterations started after the deadline, from the instants of the sampler calls - independent of how long an iteration takes); Ok(path) on an infeasible world is a violation, and a call that does not return within the 20 s watchdog is a violation ('blocks indefinitely'). Non-trivial = infeasible world, a deadline that actually fired (Err(Timeout)), or a degenerate resolution.";
     const HANG_IS_VIOLATION: bool = true;
     const WATCHDOG_S: u64 = 20;
     const MAX_SHRINK_ITERS: u32 = 100;
